@@ -25,18 +25,23 @@ MANIFEST = {
           "unknown-operator rule, the historical cost table as literals, written from the published definition of CLVM (the Python clvm "
           "package is not installable offline: stated gap) and validated against every classic line of op-tests/*.txt. Deviations of today's "
           "consensus rules from the package are the named adapters: " + "; ".join("%s: %s" % kv for kv in ADAPTERS.items()) + ". "
-          "PROVED (Props/C01.v, all arguments, all budgets that cover the reference's cost): the model of ChiaDialect::op with no flags equals "
-          "ref_op current_adapters for every classic operator: i c f r l x = >s sha256 substr strlen concat + - * / divmod > ash lsh logand logior "
-          "logxor lognot not any all and the unknown-operator rule (outside the known wrap class F6), i.e. the accumulator loops of the "
-          "transcribed Rust against closed forms; the path lookup of traverse_path equals ref_path; every literal of the reference's cost table equals "
-          "the constant the translator re-reads from the Rust source (C01_costs_literal). NOT PROVED: the evaluator-level equivalence "
-          "(stack machine run_program = big-step ref_eval), stated as C01_refines in the header of Props/C01.v; it is explored instead: three "
-          "voices (implementation, machine model, reference) run on every classic vector line as a program, on generated programs (clvm-fuzzing's "
-          "generator, random operator compositions, hand-shaped evaluator cases, directed cases for every adapter, unknown opcodes of every "
-          "length, non-canonical integers, leading-zero paths) under budgets 0, C, C-1, C+1 and random ones, and on cost-calibrated softfork guards; "
-          "any implementation-vs-reference difference is a violation with the program as replay."),
+          "PROVED (Props/C01.v, closed under the global context): C01_refines - for all programs, environments, budgets below 2^64, primitives and "
+          "every sound comparison domain (operator applications with an atom of 2^31 bytes or more, or an unknown operator in C09's class wraps64, are "
+          "outside), if the reference never answers Unsupported (the program is classic) then run_program under ChiaDialect with no flags (stack "
+          "machine of Model/Machine.v, through its big-step form BigStep.v/BigStepEquiv.v) succeeds exactly when ref_run current_adapters succeeds, with "
+          "the same cost and tree (both directions: C01_refines_complete, C01_refines_sound); C01_operators - ChiaDialect::op with no flags equals "
+          "ref_op for every operator atom, argument tree and covering budget (dispatch + per-operator loop-vs-closed-form equalities for i c f r l x = >s "
+          "sha256 substr strlen concat + - * / divmod > ash lsh logand logior logxor lognot not any all + the unknown-operator rule via C09); C01_path "
+          "(traverse_path = ref_path); C01_costs_literal (every literal of the reference's cost table = the constant re-read from the Rust source); "
+          "C01_dom_classic_sound (an executable sound domain); C01_refuted_F6 (with the full domain the statement is FALSE: F6 through run_program). "
+          "NOT PROVED / outside the theorems: the F6 wrap class and >= 2^31-byte atoms (excluded by the domain), the allocator caps and STACK_SIZE_LIMIT "
+          "(not in the tree-store machine), the reference's fidelity to the Python package (not installable offline). EXPLORED on the implementation: three "
+          "voices (implementation, machine model, reference with the full domain) on every classic vector line as a program, on generated programs "
+          "(clvm-fuzzing's generator, random operator compositions, hand-shaped evaluator cases, directed cases for every adapter, unknown opcodes of "
+          "every length, non-canonical integers, leading-zero paths) under budgets 0, C, C-1, C+1 and random ones, and on cost-calibrated softfork "
+          "guards; any implementation-vs-reference difference is a violation with the program as replay."),
  "note": vlib.NOTE_COMMON + " The reference's fidelity to the Python package cannot be checked offline; F6 (pre-hard-fork wrapping_mul in op_unknown) is a real difference from the published rule and is reported as a KNOWN-FINDING.",
- "technique": "Coq proofs (loop-to-closed-form equalities per operator, lia/induction) + pins of the cost table against the re-read source + three-way differential run (implementation, machine model, independent reference) + vector validation of the reference",
+ "technique": "Coq proofs (big-step/big-step simulation in both directions over the proved stack-machine/big-step equivalence; loop-to-closed-form equalities per operator, lia/induction) + pins of the cost table against the re-read source + three-way differential run (implementation, machine model, independent reference) + vector validation of the reference",
 }
 
 LIMIT_ERRORS = ("err OutOfMemory", "err TooManyAtoms", "err TooManyPairs", "err ValueStackLimit", "err EnvStackLimit")
@@ -93,10 +98,12 @@ def run(ctx):
                 "budgets; (iii) softfork guards calibrated with the implementation (exact, off by one, garbage, nested). Lines on which the "
                 "reference meets an operator outside the classic set are skipped. Non-trivial = distinct line on which the implementation succeeds, "
                 "or fails with cost exceeded / a softfork error")
-    ctx.explanation = ("Part proof, part exploration. Proved: per-operator equalities model = closed form, path lookup, cost-table pins (Props/C01.v). "
-                       "Explored: evaluator-level agreement, by running implementation, machine model and reference on the same lines; an "
-                       "implementation-vs-reference difference is a violation of C01 with the program as replay; a reference-vs-vector "
-                       "difference is a broken reference.")
+    ctx.explanation = ("Proof + exploration. Proved (Props/C01.v): C01_refines (run_program model = reference on classic programs inside any sound "
+                       "domain, both directions), C01_operators, C01_path, C01_costs_literal, C01_refuted_F6. The check ties the model to the code "
+                       "(model vs implementation on every line), validates the reference against the repository's vectors, and compares "
+                       "implementation and reference directly: a difference is a violation of C01 with the program as replay; a "
+                       "reference-vs-vector difference is a broken reference. Level other: F6 is a genuine exception and the reference's "
+                       "fidelity to the Python package cannot be checked offline.")
     ctx.proofs()
     if not ctx.build():
         return
